@@ -230,7 +230,7 @@ def boundsOracle (obs : List Obs) : Option (String × String) :=
       | some (_, off, bsize) => off + (o.cap.getD o.len) > bsize
       | none => (o.cap.getD o.len) != 0
   match bad with
-  | some o => some ("C02", s!"handle {o.id}: [ptr, ptr+{o.cap.getD o.len}) is not inside one live allocation")
+  | some o => some (if o.kind == .mut then "C02+C04" else "C02", s!"handle {o.id}: [ptr, ptr+{o.cap.getD o.len}) is not inside one live allocation")
   | none =>
     let muts := obs.filter fun o => o.kind != .bytes
     let clash := muts.findSome? fun m =>
@@ -306,7 +306,7 @@ def opOracle (op : Op) (out : Outc) (pre post : List Obs) (evs : List Evt) : Opt
     | .advance i n, _ => zeroCopy i i n false
     | .freeze i, _ => zeroCopy i i 0 false
     | .fromVec i, _ => zeroCopy i i 0 false
-    | .tryIntoMut i, .handle _ => zeroCopy i i 0 false
+    | .tryIntoMut i, .handle _ => (zeroCopy i i 0 false).map fun (_, m) => ("C07+C08", m)
     | .unsplit i j, _ =>
       -- adjacent halves: no copy
       match findObs pre i, findObs pre j with
